@@ -298,8 +298,9 @@ Record hcst := mkHC {
 Definition hc_emit (s : hcst) (x : Z) : hcst :=
   match hc_cur s with
   | Some k =>
-    let bump := fun h' => if (match hc_fn s with Some f => negb (Nat.eqb f h') | None => true end) && Nat.leb k (hc_saved s h')
-                          then S (hc_saved s h') else hc_saved s h' in
+    let bump := fun h' => let v := hc_saved s h' in      (* bound once: the extracted closure chain stays linear *)
+                          if (match hc_fn s with Some f => negb (Nat.eqb f h') | None => true end) && Nat.leb k v
+                          then S v else v in
     mkHC (insert_at k x (hc_nodes s)) (Some (S k)) (hc_fn s) bump
   | None => mkHC (hc_nodes s ++ [x]) None (hc_fn s) (hc_saved s)
   end.
